@@ -125,13 +125,15 @@ def r13b(model: Model, rr: RuleResult):
         if inner and "CompositeMode.SRC_IN" in norm(inner[0].test) and "PaintSolid.format" in norm(inner[0].test):
             rr.ok("group opacity is recognised as SRC_IN over a PaintSolid backdrop")
         else:
-            rr.bad(fi, comp[0], "group-opacity composite is not recognised as (SRC_IN, solid backdrop)", construct="PaintComposite branch: recognition test")
+            rr.bad_shape(fi, comp[0], "group-opacity composite is not recognised as (SRC_IN, solid backdrop)", construct="PaintComposite branch: recognition test")
         g = [st for st in ast.walk(comp[0]) if isinstance(st, ast.Assign) and norm(st.targets[0]) == "g.attrib['opacity']"]
         blk = [st for st in ast.walk(comp[0]) if isinstance(st, ast.If) and "color[:3] == (0, 0, 0)" in norm(st.test)]
         if g and norm(g[0].value) == "ntos(color.alpha)" and blk:
             rr.ok("group opacity = alpha of the black backdrop")
-        else:
+        elif g and blk and norm(g[0].value).startswith("ntos(") and "alpha" not in norm(g[0].value):
             rr.bad(fi, comp[0], "<g opacity> is not the alpha of a black backdrop", construct="PaintComposite branch: opacity")
+        else:
+            rr.bad_shape(fi, comp[0], "<g opacity> is not the alpha of a black backdrop", construct="PaintComposite branch: opacity")
 
 
 @RULES.rule("C13", "R13c", "Paint.from_ot reflection contract: dataclass fields map to existing otData fields in constructor order", floor=20)
